@@ -81,6 +81,29 @@ def long_worker(a):
     return prun.post(s, b, cfg, PROPS, seed, do_shrink=False)
 
 
+def mass_pending_worker(a):
+    """End of input with a very large number of requests still pending, announced with ascending (or descending) ids - descriptor
+    numbers while a server fills up - and nothing else: the request table is then one chain as deep as the table.  Everything is
+    released, the exit is clean, and `? stats` just before says how many there are."""
+    import daemon
+    b, n, desc = a["build"], a["n"], a["desc"]
+    cfg = proto.Config([("drone.svc", "dronecheck")] if a.get("service") else [], timeout=None)
+    ids = range(n, 0, -1) if desc else range(1, n + 1)
+    data = ("".join("%d C 10.%d.%d.%d 1 10.0.0.1 1\n" % (k, (k >> 16) & 255, (k >> 8) & 255, k & 255) for k in ids) + "-1 ? stats\n").encode("latin-1")
+    out, r = daemon.run_batch(b, cfg.text(b["moddir"]), data, leaks=True, timeout=300)
+    viol = []
+    m_ = [l for l in out if l.startswith("S iauth :")]
+    stats = {"mass_pending_runs": 1, "mass_pending_requests_at_end_of_input": n}
+    wit = {"mass_pending": True, "n": n, "desc": desc, "service": bool(a.get("service"))}
+    if not r.clean():
+        ev = r.crash_events()
+        viol.append(("C10", "crash", "crash:%s|%s" % (ev[0] if ev else ("unclean", "?")), "end of input with %d requests pending (ids announced in %s order, nothing else said): %s\n%s" % (
+            n, "descending" if desc else "ascending", r.describe(), r.stderr[-1500:]), wit))
+    elif not m_ or ("%d-0 reqs alloc, %d in use" % (n, n)) not in m_[-1]:
+        viol.append(("C10", "in-use", "in-use:mass", "%d clients announced and none withdrawn; statistics say %r" % (n, m_[-1:] or out[-3:]), wit))
+    return {"viol": viol, "stats": stats, "crash": [], "nontrivial": True, "sample": None, "nsteps": n, "hash": vcommon.h(["mass", n, desc]), "config": cfg.to_json(), "events": None}
+
+
 def timer_worker(a):
     """Real one-second timers: finished clients must never be touched by their timers again."""
     b, seed = a["build"], a["seed"]
@@ -235,6 +258,8 @@ def run(chk, tier, scale=1.0):
     prun.fold(chk, "C10", tres, crash_is_violation=True)
     prun.fold(chk, "C10", vcommon.pmap(timeout_switch_worker, [dict(build=b, seed=chk.seed * 17 + k, up=(k % 2 == 0)) for k in range(4 if tier == "quick" else 32)]),
               crash_is_violation=True)
+    mres = vcommon.pmap(mass_pending_worker, [dict(build=b, n=n_, desc=d_, service=False) for n_ in ([200000] if tier == "quick" else [200000, 600000]) for d_ in (0, 1)])
+    prun.fold(chk, "C10", mres, crash_is_violation=True)
     ores = old_bg.results()
     prun.fold(chk, "C10", ores, crash_is_violation=True)
     chk.require("old_request_lines", 3)
@@ -255,6 +280,12 @@ def run(chk, tier, scale=1.0):
 
 
 def replay(chk, rep):
+    if rep["witness"].get("mass_pending"):
+        w = rep["witness"]
+        r = mass_pending_worker(dict(build=prun.build_daemon("c10-replay"), n=w["n"], desc=w["desc"], service=w.get("service")))
+        for v in r["viol"]:
+            print(v[3])
+        return 1 if r["viol"] else 0
     if rep["witness"].get("site"):
         import sitemodel
         return sitemodel.replay_site(chk, rep["witness"], "C10", ('C10', 'crash'))
